@@ -212,3 +212,64 @@ package randomness
 //@   loop 4
 //@     invariant 0 <= i && i <= powLen
 //@     invariant sum == apsum(bits, n, blockSize, i)
+
+// ---------------------------------------------------------------------------------------------
+// runs_distribution.go
+
+//@ func RunsDistributionTest
+//@   requires len(bits) >= 100
+//@   modifies nothing
+//@   pure
+//@   loop 1
+//@     invariant 0 <= k && pow2(k+2) <= n + 3
+//@     invariant forall t int :: 1 <= t && t <= k ==> 5*pow2(t+2) <= n - t + 3
+//@     decreases n + 3 - pow2(k+2)
+//@   assert after loop 1: k >= 2 && 5*pow2(k+2) > n - k + 3
+//@   loop 2
+//@     invariant 0 <= i && i <= n && 1 <= k
+//@     invariant cur == bits[(i == 0 ? 0 : i-1)]
+//@     invariant cnt == (i == 0 ? 0 : runlen(bits, i)) && (i >= 1 ==> cnt >= 1)
+//@     invariant forall j int :: {b[j]} 0 <= j && j < k ==> b[j] == real(rcint(bits, k, true, j+1, i-1)) && b[j] >= 0.0
+//@     invariant forall j int :: {g[j]} 0 <= j && j < k ==> g[j] == real(rcint(bits, k, false, j+1, i-1)) && g[j] >= 0.0
+//@   assert before loop 3: 1 <= cnt && cnt <= k && b[cnt-1] + g[cnt-1] >= 1.0
+//@   assert before loop 3: forall j int :: {b[j]} 0 <= j && j < k ==> b[j] == real(runs(bits, n, k, true, j+1)) && b[j] >= 0.0
+//@   assert before loop 3: forall j int :: {g[j]} 0 <= j && j < k ==> g[j] == real(runs(bits, n, k, false, j+1)) && g[j] >= 0.0
+//@   loop 3
+//@     invariant 0 <= i && i <= k
+//@     invariant T == rsum(bits, n, k, i) && T >= 0.0 && (i >= cnt ==> T >= 1.0)
+//@   loop 4
+//@     invariant 0 <= i && i <= k
+//@     invariant forall j int :: {e[j]} 0 <= j && j < i ==> e[j] == rexp(T, k, j+1)
+//@   loop 5
+//@     invariant 0 <= i && i <= k
+//@     invariant V == rdchi(bits, n, k, T, i)
+//@   assert in loop 5: sqdev(b[i], e[i]) == (b[i] - e[i]) * (b[i] - e[i]) / e[i]
+//@   assert in loop 5: sqdev(g[i], e[i]) == (g[i] - e[i]) * (g[i] - e[i]) / e[i]
+
+// ---------------------------------------------------------------------------------------------
+// longest_run_of_ones_In_block.go
+
+//@ func selectParameters
+//@   modifies nothing
+//@   ensures r0 == (n >= 750000 ? 2 : n >= 6272 ? 1 : 0)
+
+//@ func LongestRunOfOnesInABlockProto
+//@   cases checkOne in {true, false}
+//@   requires len(bits) >= 128
+//@   modifies nothing
+//@   pure
+//@   assert before loop 1: (n < 6272 && param.m == 8 && param.k == 3 && param.startV == 1) || (6272 <= n && n < 750000 && param.m == 128 && param.k == 5 && param.startV == 4) || (750000 <= n && param.m == 10000 && param.k == 6 && param.startV == 10)
+//@   assert before loop 1: len(param.pi) == param.k + 1 && (forall j int :: {param.pi[j]} 0 <= j && j <= param.k ==> param.pi[j] > 0.0)
+//@   loop 1
+//@     invariant 0 <= i && i <= N
+//@     invariant bits == bits@pre[i*param.m:]
+//@     invariant forall j int :: {v[j]} 0 <= j && j <= param.k ==> v[j] == real(cntclass(bits@pre, checkOne, param.m, param.startV, param.k, j, i))
+//@   loop 2
+//@     invariant 0 <= j && j <= param.m
+//@     invariant bits == bits@pre[i*param.m + j:]
+//@     invariant lr1 == currun(bits@pre, checkOne, i*param.m, i*param.m + j) && 0 <= lr1
+//@     invariant mlr1 == maxrun(bits@pre, checkOne, i*param.m, i*param.m + j) && 0 <= mlr1
+//@   loop 3
+//@     invariant 0 <= i && i <= param.k + 1
+//@     invariant V == lrchi(bits@pre, checkOne, param.m, param.startV, param.k, N, param.pi, i)
+//@   assert in loop 3: sqdev(v[i], real(N) * param.pi[i]) == (v[i] - real(N) * param.pi[i]) * (v[i] - real(N) * param.pi[i]) / (real(N) * param.pi[i])
